@@ -1,9 +1,11 @@
 # orchestrator configuration of the C04 check (loaded by tools/props.py)
-from stack import FULL_STACK, FULL_DEPS, QUIC_STACK, QUIC_DEPS, WT_STACK, WT_DEPS
+from stack import FULL_STACK, FULL_DEPS, QUIC_STACK, QUIC_DEPS, WT_STACK, WT_DEPS, TCPREUSE_STACK, TCPREUSE_ADD, TCPREUSE_PATCH
 
 SPEC = dict(
     pkg="./harness/c04",
-    instrument=FULL_STACK + QUIC_STACK + WT_STACK,
+    instrument=FULL_STACK + QUIC_STACK + WT_STACK + TCPREUSE_STACK,
+    overlay_add=TCPREUSE_ADD,
+    overlay_patch=TCPREUSE_PATCH,
     deps=FULL_DEPS + QUIC_DEPS + WT_DEPS,
     level="fault_enumeration",
     level_text=("one fault per run placed at a drawn position of a real dial + accept + stream open + echo between two real "
@@ -16,7 +18,7 @@ SPEC = dict(
                 "random loss / duplication / reordering on top; reuseport on or off on the dialling node; audited in addition: "
                 "no one-sided connection 3 minutes after the attempt, no UDP socket but the listening ones, none after Host.Close."),
     level_note=("trusted: testing/synctest, simnet's TCP model (writes never block, EPIPE after peer close), the audit at "
-                "quiescence after 6 virtual minutes; not simulated: OS sockets, tcpreuse, websocket/WebRTC "
+                "quiescence after 6 virtual minutes; not simulated: OS sockets, reuseport, websocket/WebRTC "
                 "transports and their listeners; in QUIC strata TLS 1.3 uses the X25519 key share (GODEBUG tlsmlkem=0, see simrand)"),
     technique="deterministic simulation with fault injection: fault position sweep over real upgrader/swarm/host stack on simnet",
     design_ref="DESIGN.md section 6 (C04)",
@@ -27,9 +29,11 @@ SPEC = dict(
           "outcome)"),
     probes=["outcome-connect-failed", "outcome-stream-failed", "outcome-echo-failed", "outcome-ok",
             "quic-outcome-connect-failed", "quic-outcome-stream-failed", "quic-outcome-echo-failed", "quic-outcome-ok",
+            "shared-tcp-outcome-connect-failed", "shared-tcp-outcome-stream-failed", "shared-tcp-outcome-echo-failed", "shared-tcp-outcome-ok",
             "webtransport-outcome-connect-failed", "webtransport-outcome-stream-failed", "webtransport-outcome-echo-failed", "webtransport-outcome-ok"],
     real=["ALL of the following run as tasks of the seeded scheduler (instrumented: every lock, channel operation, select, go statement is a scheduling point)", "basic host, identify", "swarm (dial, listen, conns, streams)", "tcp transport dial path (WithDialerForAddr)",
           "upgrader + listener (gated accept, accept timeout, Upgrade)", "noise, tls, pnet (PSK)", "multistream-select", "yamux",
+          "half of the TCP runs without PSK: the real TcpTransport.Listen on a shared-TCP connection manager (tcpreuse demultiplexing listener, sampledconn) through an overlay-only seam",
           "QUIC strata: p2p/transport/quic, quicreuse, quic-go v0.59 (all instrumented), crypto/tls QUIC handshake (stdlib goroutine, hands over strictly)",
           "resource manager (real, infinite limits) behind a refusing wrapper", "pstoremem", "eventbus"],
     stubs=["wire: simnet TCP model", "wire: simnet UDP model (loss, duplication, reordering, scripted blackout)", "crypto/rand: seeded stream (simrand)", "scripted connection gater", "refusing resource-manager wrapper (delegates to the real one)"],
